@@ -435,6 +435,9 @@ func runExec(t *testing.T, sc *scenario, prefix []int) *verifmc.ExecResult {
 			s.GoPrio(fmt.Sprintf("sub%d", i), 1, func() { x.submitter(i, specs) })
 		}
 		s.Run()
+		if e := s.EngineErr(); e != "" {
+			panic(verifmc.EngineError{Msg: e})
+		}
 		s.Drain()
 		// Submitters still waiting on a pool that will never be sequenced within
 		// the horizon are released through their context.
